@@ -29,7 +29,7 @@ ASSUMPTIONS = [
     "spellings used are the documented freedoms listed in DESIGN.md section 2.2",
 ]
 
-DOC_KW = dict(depth=3, zones=True, comments=True, max_nodes=5)
+DOC_KW = dict(depth=3, zones=True, comments=True, max_nodes=5, meta_zones=True)
 
 
 def _read(sp, text):
